@@ -52,6 +52,9 @@ CHECKS = {
  "C09": dict(cat="translation_validation", tech="structural translation validation: generated C and the Function's instruction list are symbolically executed into one hash-consed term DAG and must be identical terms per output; function sets, arity, sparsity layouts, headers; gcc/g++ build; differential run of the compiled object against the CasADi VM",
              text="Every code-generation entry point (codegen.generate_code, algorithms.generate_code, the three model generate_code wrappers and their __main__ export lists) on every shipped equation set and an option lattice: generation succeeds, the exported function set equals the equation set, every function body is term-identical to the symbolic function (hence equal for all inputs, incl. non-finite values in unselected branches), layouts agree, the file compiles and the object agrees bit-for-bit with the VM on finite special-value inputs.",
              note="trusted per-opcode spelling table; FMIN/FMAX differ between VM and C only on NaN operands (CasADi caveat, listed); option combinations CasADi itself rejects are out of scope", ref="5/C09"),
+ "C20": dict(cat="proof", tech="contract-based deductive for plain Python: verification conditions generated from the ast of the real source (own symbolic executor, sidecar contracts, ghost delivery trace as (array, length), loop invariant for the fan-out loop), discharged by z3",
+             text="Per-call contracts: publish rejects a wrong-typed message without delivering, otherwise delivers the same object exactly once to every subscriber of the topic in registration order and to no one else (loop invariant VCs); Subscriber registration appends to its own topic only; set_param writes one key then broadcasts; Param.update/get_param; the logger's per-resumption contract; the estimator never reaches predict with dt <= 0 and applies corrections only when the minimum period (minus 1 ms) has elapsed, updating t_last_* exactly then.",
+             note="assumed Python-subset semantics and frame assumptions (listed); simpy scheduler contract assumed for logger timing; params_callback list bounded to 3 (labelled); whole-history order follows from synchronous per-call delivery", ref="5/C20"),
 }
 NA = {
  "C17": "closed-loop convergence of the hybrid cascade from an envelope of initial conditions is a whole-trajectory property; no pre/postcondition on a function of /repo expresses it short of a Lyapunov certificate (its per-call ingredients are C13, C15, C16)",
